@@ -12,6 +12,7 @@ import (
 	"os/exec"
 	"path/filepath"
 	"runtime"
+	"strings"
 
 	"github.com/unixpickle/model3d/model2d"
 	"github.com/unixpickle/model3d/model3d"
@@ -585,6 +586,11 @@ func main() {
 		db := 2
 		if r.Thorough() {
 			db = 3
+		}
+		if strings.HasPrefix(n, "dc-repair/") {
+			// single-threaded: the decisions are map iteration orders (one deviation = one key taken out of turn)
+			jobs = append(jobs, schedrun.Job{Scenario: n, Bound: 1, MaxExecs: 5000000})
+			continue
 		}
 		jobs = append(jobs, schedrun.Job{Scenario: n, Bound: db, MaxExecs: 5000000, Delay: true})
 		if small[n] {
